@@ -32,7 +32,7 @@ import (
 
 func init() {
 	register(&Prop{ID: "C09", Run: runC09, MinNontrivial: 200, RaceSecondPass: true,
-		Rule:        "each case = one input string presented to all six inbound entry points (plus direct DecryptBytes/Decrypt/DecryptSymmetricKey calls in the cipher classes) under one of 16 SP configurations (incl. certificate/key stores that return errors or nil entries, an ECDSA key given as encryption key) (empty store, no keys, nil clock, skip on/off, encryption-cert validation with empty/junk cert, decompression limits MaxInt64 / negative / MinInt64 / 1); classes: end-to-end ciphertext matrix (valid wrapped key, data ciphertext of every length 0-80, every final padding byte, all-zero plaintext, wrong key sizes, unknown algorithms, EncryptedKey ciphertext lengths 0-300), truncations/bit-flips/splices/base64+DEFLATE damage of generated and captured messages, hostile shapes (deep/wide trees, many Signatures, malformed Signature parts, DOCTYPE); oracle: no panic, process survives, exactly one of result/error; non-trivial = input that base64-decodes (reaches inflate/XML/crypto logic); a second pass repeats a subset under the race detector (checkptr); SP certificate bytes in non-DER forms (PEM, PEM without CERTIFICATE block, key file, cut-off file, BOM) through both key APIs; thirteen forms of advertised EncryptedKey certificate (EC, Ed25519, same key, cut, folded, PEM text, DER garbage); RetrievalMethod URI variants; class repeated-rejection (80 calls of the same rejected encrypted message, parked-goroutine detection); encoding-mark shapes (UTF-16/32/7/1 marks with odd and empty tails); class corpus-as-is (every corpus document unmodified against every configuration; the corpus includes logout requests with the schema's optional NotOnOrAfter / Reason / Consent attributes); class sparse-valid; key stores that hand out a certificate without a key",
+		Rule:        "each case = one input string presented to all six inbound entry points (plus direct DecryptBytes/Decrypt/DecryptSymmetricKey calls in the cipher classes) under one of 16 SP configurations (incl. certificate/key stores that return errors or nil entries, an ECDSA key given as encryption key) (empty store, no keys, nil clock, skip on/off, encryption-cert validation with empty/junk cert, decompression limits MaxInt64 / negative / MinInt64 / 1); classes: end-to-end ciphertext matrix (valid wrapped key, data ciphertext of every length 0-80, every final padding byte, all-zero plaintext, wrong key sizes, unknown algorithms, EncryptedKey ciphertext lengths 0-300), truncations/bit-flips/splices/base64+DEFLATE damage of generated and captured messages, hostile shapes (deep/wide trees, many Signatures, malformed Signature parts, DOCTYPE); oracle: no panic, process survives, exactly one of result/error; non-trivial = input that base64-decodes (reaches inflate/XML/crypto logic); a second pass repeats a subset under the race detector (checkptr); SP certificate bytes in non-DER forms (PEM, PEM without CERTIFICATE block, key file, cut-off file, BOM) through both key APIs; thirteen forms of advertised EncryptedKey certificate (EC, Ed25519, same key, cut, folded, PEM text, DER garbage); RetrievalMethod URI variants; class repeated-rejection (80 calls of the same rejected encrypted message, parked-goroutine detection); encoding-mark shapes (UTF-16/32/7/1 marks with odd and empty tails); class corpus-as-is (every corpus document unmodified against every configuration; the corpus includes logout requests with the schema's optional NotOnOrAfter / Reason / Consent attributes); class sparse-valid; key stores that hand out a certificate without a key; every library call runs on a goroutine of its own: one that is parked on a channel or lock with unchanged frames five seconds apart is reported as never returning, and the worker's remaining cases are then not called",
 		Assumptions: []string{"a watchdog firing is inconclusive, not a violation (the round-trip screen is super-linear on deep trees)", "DecryptBytes may return (nil, nil) for an empty plaintext; slice nil-ness is not tested"}})
 }
 
@@ -215,7 +215,10 @@ func c09Call(cs *mon.Case, sp *saml2.SAMLServiceProvider, cfg string, s string) 
 	for _, e := range eps {
 		var has bool
 		var err error
-		pv, stack := mon.Guard(func() { has, err = e.fn() })
+		pv, stack, returned := c09Guard(cs, e.name, func() { has, err = e.fn() })
+		if !returned {
+			continue
+		}
 		if pv != nil {
 			cs.Violation("panic:"+e.name+":"+panicSite(stack), "%s panicked (config %s): %v\n%s", e.name, cfg, pv, trunc(stack, 1800))
 			cs.Outcome("panic")
@@ -230,6 +233,31 @@ func c09Call(cs *mon.Case, sp *saml2.SAMLServiceProvider, cfg string, s string) 
 			cs.Outcome("err")
 		}
 	}
+}
+
+// c09Wedged is set once a library call was found parked for good: the library's process-wide state (a semaphore, a
+// lock) is then exhausted and every further call would wait as well, so the rest of this worker's cases are not called.
+var c09Wedged atomic.Bool
+
+// c09Guard runs one library call under recover() on a goroutine of its own. returned=false means the call did not come
+// back: a violation when its goroutine is parked on a channel / lock with unchanged frames, inconclusive otherwise.
+func c09Guard(cs *mon.Case, what string, fn func()) (pv any, stack string, returned bool) {
+	if c09Wedged.Load() {
+		cs.Outcome("not-called:library-wedged")
+		return nil, "", false
+	}
+	done, blocked := CallReturns(func() { pv, stack = mon.Guard(fn) }, 120*time.Second)
+	if done {
+		return pv, stack, true
+	}
+	c09Wedged.Store(true)
+	if blocked != "" {
+		cs.Outcome("blocked")
+		cs.Violation("call-never-returns:"+what, "%s did not return; its goroutine is parked with the same frames five seconds apart: %s", what, trunc(blocked, 600))
+	} else {
+		cs.Inconclusive("slow-call")
+	}
+	return nil, "", false
 }
 
 // panicSite extracts the first library frame below the panic for a stable failure signature.
@@ -409,14 +437,20 @@ func runC09(c *mon.Ctx) {
 			EncryptedKey: types.EncryptedKey{CipherValue: b64(wrapped), EncryptionMethod: types.EncryptionMethod{Algorithm: ka}}}
 		var pt []byte
 		var derr error
-		pv, stack := mon.Guard(func() { pt, derr = eaT.DecryptBytes(tlsCert) })
+		pv, stack, returned := c09Guard(cs, "DecryptBytes", func() { pt, derr = eaT.DecryptBytes(tlsCert) })
+		if !returned {
+			continue
+		}
 		if pv != nil {
 			cs.Violation("panic:DecryptBytes:"+panicSite(stack), "DecryptBytes panicked on %s: %v\n%s", cs.Description(), pv, trunc(stack, 1500))
 		} else if derr != nil && pt != nil {
 			cs.Violation("result-error-pair:DecryptBytes", "DecryptBytes returned bytes together with an error")
 		}
 		var as *types.Assertion
-		pv, stack = mon.Guard(func() { as, derr = eaT.Decrypt(tlsCert) })
+		pv, stack, returned = c09Guard(cs, "Decrypt", func() { as, derr = eaT.Decrypt(tlsCert) })
+		if !returned {
+			continue
+		}
 		if pv != nil {
 			cs.Violation("panic:Decrypt:"+panicSite(stack), "Decrypt panicked on %s: %v\n%s", cs.Description(), pv, trunc(stack, 1500))
 		} else if (as != nil) == (derr != nil) {
@@ -453,7 +487,10 @@ func runC09(c *mon.Ctx) {
 		for ci, tc := range certs {
 			var blk any
 			var err error
-			pv, stack := mon.Guard(func() { blk, err = ek.DecryptSymmetricKey(tc) })
+			pv, stack, returned := c09Guard(cs, "DecryptSymmetricKey", func() { blk, err = ek.DecryptSymmetricKey(tc) })
+			if !returned {
+				break
+			}
 			if pv != nil {
 				cs.Violation("panic:DecryptSymmetricKey:"+panicSite(stack), "DecryptSymmetricKey panicked (cert variant %d): %v\n%s", ci, pv, trunc(stack, 1500))
 			} else if (blk != nil && fmt.Sprint(blk) != "<nil>") == (err != nil) {
